@@ -26,7 +26,8 @@ impl Rep {
     /// should this case run in this shard?
     pub fn take(&mut self, name: &str) -> bool {
         if let Some(o) = &self.only {
-            return o == name;
+            // exact name, or a prefix written as `prefix*`
+            return o == name || (o.ends_with('*') && name.starts_with(o.trim_end_matches('*')));
         }
         self.counter += 1;
         self.counter % (self.nshards * self.mult) == self.shard + self.nshards * (self.seed % self.mult)
